@@ -699,6 +699,13 @@ def main(argv=None):
         "ties in timestamp: memory keeps the later-inserted first, sqlite the higher id first, peewee the lower id first "
         "(observed; modelled as stable sorts; compared exactly)",
     ]
+    # windows are instants: the zone they are written in must not matter (harness/c03_zoned.py; the one difference on
+    # the unchanged tree, an end edge with fold=1, is the open known finding C03:window-end-in-fold)
+    from . import c03_zoned
+    try:
+        c03_zoned.zoned_check(ck)
+    except Exception as ex:  # noqa: BLE001 -- a stream that cannot run is a broken tie, not a crash
+        ck.disagreement("zoned-windows", f"the zoned-window stream could not run: {type(ex).__name__}: {ex}", {"kind": "zoned-window"})
     return ck.finish(RULE)
 
 
